@@ -9,6 +9,7 @@ import (
 	"os"
 	"strings"
 	"sync"
+	"sync/atomic"
 	"testing"
 	"time"
 
@@ -160,6 +161,7 @@ func buildPool(t *rapid.T, next http.Handler, maxW int, opts ...roundrobin.LBOpt
 	for h := 0; h < nHist; h++ {
 		// interleave some selections so the iterator is mid-rotation when the pool changes
 		for k := rapid.IntRange(0, 5).Draw(t, "presel"); k > 0; k-- {
+			progress.Add(1)
 			_, _ = rr.NextServer()
 		}
 		i := rapid.IntRange(0, 7).Draw(t, "hsrv")
@@ -176,6 +178,7 @@ func buildPool(t *rapid.T, next http.Handler, maxW int, opts ...roundrobin.LBOpt
 			log = append(log, "drain-all")
 			interesting = true
 			for k := rapid.IntRange(1, 3).Draw(t, "drainedSel"); k > 0; k-- {
+				progress.Add(1)
 				if u, err := rr.NextServer(); err == nil {
 					t.Fatalf("all %d servers have weight 0 but %s was selected (history %v)", len(model), u, log)
 				}
@@ -296,8 +299,52 @@ func (w *lightWriter) status() int {
 	return w.code
 }
 
+// progress counts selections asked of a balancer; stalledOnce: a stall was seen in this process.
+var (
+	progress    atomic.Int64
+	stalledOnce atomic.Bool
+)
+
+// watched runs the body of a case on a goroutine of its own and fails the case when no selection
+// has returned for 20 s (2 s once a stall was seen: shrinking re-runs variants of it): a balancer
+// that never answers a selection chooses nobody, whatever the weights. Every failure or draw of
+// the body happens while this goroutine waits, so rapid sees one sequential test.
+func watched(t *rapid.T, body func()) {
+	res := make(chan any, 1)
+	go func() {
+		defer func() { res <- recover() }()
+		body()
+	}()
+	last, idle := progress.Load(), 0
+	tick := time.NewTicker(time.Second)
+	defer tick.Stop()
+	for {
+		select {
+		case r := <-res:
+			if r != nil {
+				panic(r)
+			}
+			return
+		case <-tick.C:
+			if p := progress.Load(); p != last {
+				last, idle = p, 0
+				continue
+			}
+			idle++
+			if limit := 20; idle >= limit || (stalledOnce.Load() && idle >= 2) {
+				stalledOnce.Store(true)
+				t.Fatalf("a selection (NextServer / ServeHTTP on the balancer) has not returned for %d s: the balancer is stuck and selects nobody", idle)
+			}
+		}
+	}
+}
+
 func TestC01_Windows(t *testing.T) {
-	rapid.Check(t, func(t *rapid.T) {
+	rapid.Check(t, func(t *rapid.T) { watched(t, func() { windowsCase(t) }) })
+}
+
+func windowsCase(t *rapid.T) {
+	{
 		var lastSeen string
 		var nSeen int
 		next := http.HandlerFunc(func(w http.ResponseWriter, r *http.Request) {
@@ -327,6 +374,7 @@ func TestC01_Windows(t *testing.T) {
 		if rg > 0 {
 			rot /= rg
 		}
+		prefilled := false
 		viaRB := badCookie == "" && len(model) <= 20 && rot <= 20000 && rapid.IntRange(0, 4).Draw(t, "behindRebalancer") == 0
 		if viaRB {
 			clock.Freeze(time.Date(2026, 4, 1, 0, 0, 0, 0, time.UTC))
@@ -336,13 +384,17 @@ func TestC01_Windows(t *testing.T) {
 			if err != nil {
 				t.Fatalf("NewRebalancer: %v", err)
 			}
-			for _, s := range model {
-				if err := rb.UpsertServer(mustURL(s.name), roundrobin.Weight(s.w)); err != nil {
-					t.Fatalf("rebalancer upsert: %v", err)
+			// half of them were filled on the balancer itself before the rebalancer was put in front
+			// (it has no record of the servers); the others are registered through the rebalancer too
+			if prefilled = rapid.Bool().Draw(t, "prefilledBeforeWrapping"); !prefilled {
+				for _, s := range model {
+					if err := rb.UpsertServer(mustURL(s.name), roundrobin.Weight(s.w)); err != nil {
+						t.Fatalf("rebalancer upsert: %v", err)
+					}
 				}
 			}
 			front, viaHTTP = rb, true
-			log = append(log, "behind-rebalancer")
+			log = append(log, fmt.Sprintf("behind-rebalancer(prefilled=%v)", prefilled))
 		}
 		sum, g := 0, 0
 		for _, s := range model {
@@ -361,6 +413,7 @@ func TestC01_Windows(t *testing.T) {
 				if viaRB {
 					clock.Advance(400 * time.Millisecond)
 				}
+				progress.Add(1)
 				front.ServeHTTP(lw, req) // the balancer works on a shallow copy of the request
 				if nSeen == n {
 					if lw.status() < 500 {
@@ -373,6 +426,7 @@ func TestC01_Windows(t *testing.T) {
 				}
 				return lastSeen, true
 			}
+			progress.Add(1)
 			u, err := rr.NextServer()
 			if err != nil {
 				return "", false
@@ -429,7 +483,7 @@ func TestC01_Windows(t *testing.T) {
 			vstat.Case(sig, true, []string{"huge-rotation"}, nil)
 			return
 		}
-		refusedCalls := 0
+		refusedCalls, readCalls := 0, 0
 		offset := rapid.IntRange(0, 2*W).Draw(t, "offset")
 		for i := 0; i < offset; i++ {
 			if _, ok := sel(); !ok {
@@ -445,7 +499,25 @@ func TestC01_Windows(t *testing.T) {
 				refusedAt[rapid.IntRange(0, M-1).Draw(t, "refusedAt")] = true
 			}
 		}
+		// read-only questions about the pool (its members, a member's weight) change nothing either
+		readsAt := map[int]bool{}
+		if rapid.IntRange(0, 2).Draw(t, "readOnlyCalls") == 0 && M <= 5000 {
+			for k := rapid.IntRange(1, 3).Draw(t, "nReads"); k > 0; k-- {
+				readsAt[rapid.IntRange(0, M-1).Draw(t, "readAt")] = true
+			}
+		}
 		for i := 0; i < M; i++ {
+			if readsAt[i] {
+				if got := rr.Servers(); len(got) != len(model) {
+					t.Fatalf("Servers() lists %d servers, the pool has %d", len(got), len(model))
+				}
+				for _, s := range model {
+					if w, ok := rr.ServerWeight(mustURL(s.name)); !ok || w != s.w {
+						t.Fatalf("ServerWeight(%s) = %d,%v want %d", s.name, w, ok, s.w)
+					}
+				}
+				readCalls++
+			}
 			if refusedAt[i] {
 				var err error
 				switch rapid.IntRange(0, 2).Draw(t, "refusedKind") {
@@ -506,6 +578,12 @@ func TestC01_Windows(t *testing.T) {
 		if viaRB {
 			cl = append(cl, "selected-through-an-idle-rebalancer")
 		}
+		if prefilled {
+			cl = append(cl, "pool-filled-before-the-rebalancer-was-put-in-front")
+		}
+		if readCalls > 0 {
+			cl = append(cl, "read-only-calls-inside-the-window")
+		}
 		if badCookie != "" {
 			cl = append(cl, "sticky-on-with-unusable-cookie")
 		}
@@ -519,13 +597,17 @@ func TestC01_Windows(t *testing.T) {
 			cl = append(cl, "W>=1000")
 		}
 		vstat.Case(sig+fmt.Sprint(offset, M), nt, cl, map[string]any{"pool": fmt.Sprint(model), "g": g, "W": W, "offset": offset, "selections": M, "viaServeHTTP": viaHTTP, "history": strings.Join(log, " ")})
-	})
+	}
 }
 
 // TestC01_Concurrent: many callers at once; the combined multiset over k*W
 // selections must be exactly proportional. Built with -race.
 func TestC01_Concurrent(t *testing.T) {
-	rapid.Check(t, func(t *rapid.T) {
+	rapid.Check(t, func(t *rapid.T) { watched(t, func() { concurrentCase(t) }) })
+}
+
+func concurrentCase(t *rapid.T) {
+	{
 		var mu sync.Mutex
 		counts := map[string]int{}
 		next := http.HandlerFunc(func(w http.ResponseWriter, r *http.Request) {
@@ -568,6 +650,7 @@ func TestC01_Concurrent(t *testing.T) {
 				for i := 0; i < n; i++ {
 					if viaHTTP {
 						rec := httptest.NewRecorder()
+						progress.Add(1)
 						rr.ServeHTTP(rec, httptest.NewRequest("GET", "http://client/", nil))
 						if rec.Code >= 500 {
 							errs <- fmt.Sprintf("status %d", rec.Code)
@@ -575,6 +658,7 @@ func TestC01_Concurrent(t *testing.T) {
 						}
 						continue
 					}
+					progress.Add(1)
 					u, err := rr.NextServer()
 					if err != nil {
 						errs <- err.Error()
@@ -602,5 +686,5 @@ func TestC01_Concurrent(t *testing.T) {
 			}
 		}
 		vstat.Case(fmt.Sprintf("conc|%v|%d|%v", model, k, parts), len(model) >= 2, []string{"concurrent-callers"}, map[string]any{"pool": fmt.Sprint(model), "goroutines": G, "split": fmt.Sprint(parts), "rotations": k})
-	})
+	}
 }
